@@ -73,14 +73,17 @@ async fn get_child_result(
     }
 
     if output.status.success() {
-        let result: ObjFuncChildResult = serde_json::from_slice(&output.stdout).map_err(|_| {
-            Error::ObjFuncProcInvalidOutput(ProcOutputWithObjFuncArg::new(
-                obj_func_arg.to_owned(),
-                seed,
-                output,
-            ))
-        })?;
-        Ok(result.objFuncVal)
+        let result: Option<ObjFuncChildResult> = serde_json::from_slice(&output.stdout)
+            .ok()
+            .filter(|value: &serde_json::Value| value.is_object())
+            .and_then(|value| serde_json::from_value(value).ok());
+
+        match result {
+            Some(result) => Ok(result.objFuncVal),
+            None => Err(Error::ObjFuncProcInvalidOutput(
+                ProcOutputWithObjFuncArg::new(obj_func_arg.to_owned(), seed, output),
+            )),
+        }
     } else {
         trace!(
             "Child terminated unsuccessfully, status: {:?}",
